@@ -55,6 +55,23 @@ def main(argv):
         failed = sorted(set(l.split(" ")[1] for l in t.stdout.splitlines() if l.startswith(("FAILED ", "ERROR "))))
         res["suite_failed"] = failed
         res["suite_summary"] = [l for l in t.stdout.splitlines() if " passed" in l or " failed" in l][-1:]
+        extra = sorted(set(failed) - ALLOWED_FAIL)
+        if extra and len(extra) <= 8:
+            # timing-sensitive tests fail under machine load: each must pass when re-run on its own (twice at most)
+            still = []
+            for tid in extra:
+                okk = False
+                for _ in range(2):
+                    r = sh("unshare -n sh -c 'ip link set lo up; exec /venv/bin/python -m pytest -q -p no:cacheprovider "
+                           "--timeout=900 -p no:hypothesispytest \"%s\"'" % tid, cwd=wt, env=env, timeout=900)
+                    if r.returncode == 0:
+                        okk = True
+                        break
+                if not okk:
+                    still.append(tid)
+            res["suite_failed_under_load_passed_alone"] = [t for t in extra if t not in still]
+            failed = sorted((set(failed) & ALLOWED_FAIL) | set(still))
+            res["suite_failed"] = failed
         res["suite_ok"] = set(failed) <= ALLOWED_FAIL and bool(res["suite_summary"])
     finally:
         sh("git -C /repo worktree remove --force %s" % wt)
